@@ -13,7 +13,16 @@ where
     };
     let can_be_used = can_be_used(&var_type, &rhs);
     let return_type = return_type(&var_type, &rhs);
-    can_be_used && return_type.matches(&var_type)
+    // when lhs is a union of muts the result must fit into whichever of them it is
+    let fits = match &lhs {
+        Type::Multi(multi) => multi.iter().all(|member| {
+            member
+                .mut_element_type()
+                .is_some_and(|element| return_type.matches(&element))
+        }),
+        _ => return_type.matches(&var_type),
+    };
+    can_be_used && fits
 }
 
 pub fn exec<T: FnOnce(Variable, Variable) -> Variable>(
